@@ -899,7 +899,7 @@ func init() {
 		ID:  "C09",
 		Run: runC09,
 		Rule: "case = 1-3 concurrent publishers (1-10/18 events over 3 topics - two with handlers, one that only comes into existence with the first event collected on it, in a third of the cases by all publishers at once - x 2-4 IDs x 4 levels) x 0-2 concurrent readers (TopicState, EventStates(min)) x a registrar (0-3 handler specs of kind publish/aggregate with one of 8 match expressions, registered for the whole run or added/replaced (keeping or changing the handler id)/removed midway, plus anonymous handler churn; every handler topic has a possibly slow recorder registered first and a never delayed one registered last) x publishers pausing 0/300/700/1100 virtual ms between events (several aggregate intervals) x final reads of every topic x optional UpdateEvent on a not-yet-existing topic x one seeded schedule/knob set; " +
-			"one case in eight instead is a sequential history in which a topic is deleted or closed and comes into being again under the same name (handlers registered on each incarnation get exactly the events collected while they were registered; level and event states are those of the events since the topic last came into being); " +
+			"in half of the cases without aggregate handlers the service is closed while handlers still have events queued (they are owed all the same); one case in eight instead is a sequential history in which a topic is deleted or closed and comes into being again under the same name (handlers registered on each incarnation get exactly the events collected while they were registered; level and event states are those of the events since the topic last came into being); " +
 			"non-trivial = some topic history has >= 3 operations; distinct = distinct (scenario, interleaving signature) pairs",
 		Real:        []string{"services/alert Service (Collect, UpdateEvent, TopicState, EventStates, Register/Update/DeregisterHandlerSpec, Register/DeregisterAnonHandler, match/publish/aggregate handlers)", "alert.Topics, Topic, bufHandler", "tick/stateful (match expressions)", "services/storage (handler spec DAO) over real bbolt"},
 		Stub:        []string{"recording alert.Handler registered through the real service", "porcupine v1.3.0 as the linearizability checker (uninstrumented, runs after the world)", "libflux C stub (never called)"},
